@@ -35,6 +35,8 @@ pub enum ROp {
     ReplaceHeld,
     /// `register()` the instance this client holds
     RegisterHeld,
+    /// build a fresh instance and register it through the builder's `register()` terminal
+    BuildRegisterNew,
 }
 
 pub const ALPHABET: [ROp; 10] = [
@@ -73,6 +75,17 @@ pub async fn reg_op<const K: u8>(held: &mut Option<Addr<Probe<K>>>, op: ROp) -> 
             let inst = fresh.inst;
             let addr = fresh.spawn();
             match addr.register().await {
+                Ok((me, replaced)) => {
+                    *held = Some(me);
+                    Res::Registered { new: inst, replaced: replaced.is_some() }
+                }
+                Err(e) => Res::Err(errkind(&e)),
+            }
+        }
+        ROp::BuildRegisterNew => {
+            let fresh = Probe::<K>::new(role);
+            let inst = fresh.inst;
+            match hannibal::build(fresh).unbounded().register().await {
                 Ok((me, replaced)) => {
                     *held = Some(me);
                     Res::Registered { new: inst, replaced: replaced.is_some() }
@@ -391,8 +404,15 @@ fn apply(m: &Model, e: &HEvent, hold_probe: &dyn Fn(u16, usize) -> bool) -> Opti
                         _ => None,
                     }
                 }
-                ROp::RegisterNew => {
-                    let s = (*spawned)?;
+                ROp::RegisterNew | ROp::BuildRegisterNew => {
+                    // (the builder's terminal may refuse before it spawns anything: then there is
+                    // no new instance to account for)
+                    let Some(s) = *spawned else {
+                        return match n.entry[k] {
+                            Some(x) if n.alive(x) => matches!(res, Res::Err(ErrKind::StillRunning)).then_some(n),
+                            _ => None,
+                        };
+                    };
                     match n.entry[k] {
                         Some(x) if n.alive(x) => matches!(res, Res::Err(ErrKind::StillRunning)).then_some(n),
                         prev => {
@@ -729,6 +749,22 @@ fn cases(tier: Tier) -> Vec<Case> {
             let desc = format!("registry [first start of the type fails] programs={}", p.iter().map(|c| c.iter().map(|(k, o)| format!("{o:?}{k}")).collect::<Vec<_>>().join(",")).collect::<Vec<_>>().join(" | "));
             let bound = if p.len() >= 3 { Some(if tier == Tier::Quick { 4 } else { 6 }) } else { None };
             v.push(Case { desc, exec: ExecCfg { yield_holding_lock: true, ..ExecCfg::default() }, bound, scene: Box::new(S { programs: p, preregistered: false, first_start_fails: true }) });
+        }
+    }
+    // the builder's register() terminal: like register(), it succeeds exactly when no live
+    // instance is registered - in particular over a terminated one
+    {
+        let br = (1u8, ROp::BuildRegisterNew);
+        let progs: Vec<(bool, Vec<Vec<(u8, ROp)>>)> = vec![
+            (false, vec![vec![br, (1, ROp::AlreadyRunning), br]]),
+            (true, vec![vec![br, (1, ROp::StopHeld), br, (1, ROp::TryFromRegistry)]]),
+            (true, vec![vec![(1, ROp::StopHeld), br, (1, ROp::AlreadyRunning)]]),
+            (true, vec![vec![(1, ROp::SelfStopHeld)], vec![br, (1, ROp::AlreadyRunning)]]),
+            (false, vec![vec![br], vec![br]]),
+            (false, vec![vec![br], vec![(1, ROp::FromRegistry)]]),
+        ];
+        for (pre, p) in progs {
+            push_case(&mut v, p, pre, None);
         }
     }
     // replace / register with an instance the client already holds - possibly the registered one
